@@ -69,10 +69,27 @@ adjacent_harness!(c03_adjacent_items_n2, 2);
 adjacent_harness!(c03_adjacent_items_n3, 3); // tier=thorough cap=1800
 // @verif-end
 
+// @verif props=C03 tier=quick cap=900 group=core fns=LoopState::{new,next,did_not_iterate}
+/// After the FIRST item has been yielded the loop counts as iterated: `did_not_iterate` (which guards the
+/// `{% else %}` block) is false from then on, so leaving the body early - `{% break %}` in the first
+/// iteration - does not run the else block.
+#[kani::proof]
+#[kani::unwind(6)]
+fn c03_loopstate_first_item_counts_as_iteration() {
+    let mut st = LoopState::new(counting_iter(1), 0, true, None, None);
+    let item = st.next();
+    assert!(matches!(item, Some(ref v) if is_int(v, 0)));
+    assert!(st.object.idx.load(Ordering::Relaxed) == 0);
+    assert!(!st.did_not_iterate());
+    kani::cover!(true);
+    core::mem::forget(item);
+    core::mem::forget(st);
+}
+
 macro_rules! loopstate_harness {
-    ($name:ident, $n:expr) => {
+    ($name:ident, $n:expr, $unwind:expr) => {
         #[kani::proof]
-        #[kani::unwind(6)]
+        #[kani::unwind($unwind)]
         fn $name() {
             let n: usize = $n;
             let mut st = LoopState::new(counting_iter(n), 0, true, None, None);
@@ -86,6 +103,9 @@ macro_rules! loopstate_harness {
                 assert!(st.object.idx.load(Ordering::Relaxed) == step);
                 if step < n {
                     assert!(matches!(item, Some(ref v) if is_int(v, step as u64)));
+                    // once an item was yielded the loop "did iterate" - also when the body is then
+                    // left early with break (the else block must not run)
+                    assert!(!st.did_not_iterate());
                 } else {
                     assert!(item.is_none());
                     // the loop body never ran exactly when the sequence was empty
@@ -101,8 +121,8 @@ macro_rules! loopstate_harness {
 }
 
 // @verif-block props=C03 tier=quick cap=400 group=core doc=LoopState::new/next/did_not_iterate_over_exactly_N_items:_length_==_N,_the_k-th_advance_sets_the_position_to_k-1_and_yields_item_k-1,_"did_not_iterate"_holds_after_exhaustion_exactly_for_N==0_(together_with_c01_loop_attrs_any_position,_which_proves_the_attribute_arithmetic_for_EVERY_position_and_length,_this_gives_"loop.*_describes_the_sequence_actually_iterated")
-loopstate_harness!(c03_loopstate_n0, 0);
-loopstate_harness!(c03_loopstate_n1, 1); // tier=thorough cap=3600
+loopstate_harness!(c03_loopstate_n0, 0, 6);
+loopstate_harness!(c03_loopstate_n1, 1, 105); // tier=thorough cap=3600
 // @verif-end
 
 // @verif props=C01,C03 tier=quick cap=300 group=core fns=Loop::get_value_by_str
